@@ -158,7 +158,7 @@ func init() {
 	modes["srv.answers"].Corpus = srvAnswersCorpus
 	regSrvMode("srv.protocol", "protocol", 200, 2000, []string{"msg.multi.3", "msg.empty.12", "msg.params.open"})
 	regSrvMode("srv.malformed", "malformed", 150, 1500, []string{"msg.ops.open"})
-	regSrvMode("srv.flushget", "flushget", 150, 1500, []string{"flush.ok", "flush.rejected", "get.ok", "get.err"})
+	regSrvMode("srv.flushget", "flushget", 150, 1500, []string{"flush.ok", "flush.rejected", "get.ok", "get.err", "rebuild.ok"})
 	srvDiffs := []string{"msg.", "elec", "master", "sess", "ents", "pend", "add.", "del."}
 	props["C04"] = &PropSpec{Mode: "srv.election", Diffs: srvDiffs, Monitors: []string{"c04"}}
 	props["C05"] = &PropSpec{Mode: "srv.election", Extra: []string{"conc"}, Diffs: []string{"msg.resps", "elec", "master", "msg.not-accepted", "conc"}, Monitors: []string{"c05"}}
